@@ -148,5 +148,41 @@ def run(ctx):
     ctx.ob('T10.tail', isl.fq, 'the text after the last line break is yielded as well (a yield of text[<end of last break>:] after the '
            'scan loop)', any(open_tail(y.value) for y in after), loc=isl.loc,
            detail='yields after the loop: %s' % [txt(y.value) for y in after])
+    # T9.whole: reverse_iter_lines reads the file backwards in blocks and carries the unfinished head of the buffer over.  The
+    # carried part may already hold complete lines (deferred when a block boundary fell right in front of a line break), so in
+    # every pass of the block loop the decision what to do next looks at the *whole* buffer (the block just read joined with the
+    # carry-over): a pass that decides from the new block alone can leave deferred lines glued together.
+    ril = prog.func('jsonutils.reverse_iter_lines')
+    wr, rpaths = paths_of(prog, ril)
+    n_pass = 0
+    bad_pass = None
+    for p in rpaths:
+        marks = [o.seq for o in p.ops if o.kind == 'loop_iter'] + [10 ** 9]
+        for a, b in zip(marks, marks[1:]):
+            seg = [o for o in p.ops if a < o.seq < b]
+            rd = [o for o in seg if o.kind == 'call' and isinstance(o.val.func, ast.Attribute) and o.val.func.attr == 'read']
+            if not rd:
+                continue
+            tok = [nm for nm, info in wr.tokens.items() if info[0] == 'call' and len(info) > 2 and info[2] is rd[0]]
+            if not tok:
+                continue
+            joins = [o for o in seg if o.kind == 'binop' and isinstance(o.val, ast.BinOp) and isinstance(o.val.op, ast.Add) and
+                     tok[0] in (txt(o.val.left), txt(o.val.right)) and o.seq > rd[0].seq]
+            if not joins:
+                continue
+            n_pass += 1
+            T = txt(joins[0].val)
+            # the pass ends at the next loop test (or the end of the path); a use of the joined buffer: a call on it / with it,
+            # a subscript of it or a test over it
+            used = [o for o in seg if o.seq > joins[0].seq and o.kind in ('call', 'test', 'compare', 'sub_load', 'iter_start') and
+                    o.val is not None and T in txt(o.val)]
+            if not used and bad_pass is None:
+                bad_pass = (p, joins[0])
+    if n_pass == 0:
+        ctx.unknown('T9.whole', ril.fq, 'no block read joined with a carried-over buffer found in the loop', ril.loc)
+    else:
+        ctx.ob('T9.whole', ril.fq, 'every pass of the block loop looks at the whole buffer (new block + carry-over) before it goes on',
+               bad_pass is None, loc=loc(ril, bad_pass[1].node) if bad_pass else ril.loc,
+               detail='%d passes examined' % n_pass, path=bad_pass[0].describe() if bad_pass else None)
     for r, n in (('T12.req', 8), ('T12.only', 8), ('T12.order', 8), ('T17', 1), ('T9.blank', 1)):
         ctx.need(r, n)
